@@ -647,7 +647,7 @@ def _enum_shard(ctx, arg):
     enumerate_run(ctx, _short_histories(first, length), run_case)
 
 
-def _raising_histories(maxlen, debug):
+def _raising_histories(maxlen, debug, first=None):
     """Second small scope: the alphabet plus calls that raise (an Exception /
     a non-Exception BaseException), with DelayedCall.debug off or on.  With
     debug off only the histories that contain a raising call are new."""
@@ -656,10 +656,11 @@ def _raising_histories(maxlen, debug):
     extra = [(["call", 0, 1, []], "new"), (["call", 0, 2, []], "new"), (["call", U, 2, []], "new"),
              (["call", 0, 2, [["call", 0, 0, []]]], "new")]
     A2 = A + extra
+    firsts = [x for x in A2 if x[1] == "new"]
+    if first is not None:
+        firsts = firsts[first:first + 1]
     for n in range(1, maxlen + 1):
-        for seq in itertools.product(A2, repeat=n):
-            if seq[0][1] != "new":
-                continue
+        for seq in itertools.product(firsts, *([A2] * (n - 1))):
             ncalls = 0
             ok = True
             raising = False
@@ -678,8 +679,8 @@ def _raising_histories(maxlen, debug):
 
 
 def _raise_shard(ctx, arg):
-    maxlen, debug = arg
-    enumerate_run(ctx, _raising_histories(maxlen, debug), run_case)
+    maxlen, debug, first = arg
+    enumerate_run(ctx, _raising_histories(maxlen, debug, first), run_case)
 
 
 def _hyp_shard(ctx, i):
@@ -707,9 +708,9 @@ def run(ctx):
     if not ctx.has_violation():
         rl = ctx.pick(3, 4)
         if ctx.thorough:
-            ctx.shards(_raise_shard, [(rl, 0), (rl, 1)])
+            ctx.shards(_raise_shard, [(rl, g, f) for g in (0, 1) for f in range(17)])
         else:
-            for a in ((rl, 1), (rl, 0)):
+            for a in ((rl, 1, None), (rl, 0, None)):
                 _raise_shard(ctx, a)
                 if ctx.has_violation():
                     break
